@@ -1,12 +1,143 @@
 /-
 Driver commands of property C05 (core Lean only).  Command names start with "c05.".
+
+A record is 13 arguments:
+  name(hex) ref pos mapq cigar(hex of the uint32s, little-endian) flags mateRef matePos tempLen seqLen
+  seq(hex of the doublets) qual(hex, or `*` for the nil slice) aux(`.` for none, else hex strings joined by `,`)
+`ref`/`mateRef` are -1 for nil.  Byte strings are answered as `<length> <FNV-1a-64 of the bytes>`, records as the
+FNV-1a-64 of the canonical serialisation `ser` below (the harness computes the same on its side).
 -/
 import Hts.Drv.Util
+import Hts.Model.BamRecord
+import Hts.Model.BamView
+import Hts.Spec.BamLayout
 namespace Hts.Drv.C05
-open Hts.Drv
+open Hts.Drv Hts.Model.Bam
+
+def toBytes (ns : List Nat) : List Byte := ns.map (BitVec.ofNat 8)
+
+def fnv (h : UInt64) (bs : List Byte) : UInt64 :=
+  bs.foldl (fun h b => (h ^^^ b.toNat.toUInt64) * 0x100000001b3) h
+
+def fnv0 : UInt64 := 0xcbf29ce484222325
+
+def digest (bs : List Byte) : String := s!"{bs.length} {(fnv fnv0 bs).toNat}"
+
+/-- n little-endian bytes of a natural number -/
+def leBytes : Nat → Nat → List Byte
+  | 0, _ => []
+  | w + 1, n => BitVec.ofNat 8 n :: leBytes w (n / 256)
+
+def i64 (x : Int) : List Byte := leBytes 8 (x % 18446744073709551616).toNat
+def str (bs : List Byte) : List Byte := leBytes 4 bs.length ++ bs
+
+/-- canonical serialisation of a record as returned by the reader (nil and empty qualities coincide) -/
+def ser (r : Record) : List Byte :=
+  str r.name ++ i64 (refID r.ref) ++ i64 r.pos ++ [r.mapq] ++
+  leBytes 4 r.cigar.length ++ r.cigar.flatMap (fun c => leBytes 4 c.toNat) ++
+  leBytes 2 r.flags.toNat ++ i64 (refID r.mateRef) ++ i64 r.matePos ++ i64 r.tempLen ++
+  leBytes 8 r.seqLen ++ str r.seq ++ str (r.qual.getD []) ++
+  leBytes 4 r.aux.length ++ r.aux.flatMap str
+
+def faultName : Fault → String
+  | .errNameLen => "err:namelen" | .errQualLen => "err:quallen" | .errUnexpectedEOF => "err:unexpectedEOF"
+  | .errBlockSize => "err:blocksize" | .errReadNameLen => "err:readnamelen" | .errSeqLen => "err:seqlen"
+  | .errRefRange => "err:refrange" | .errMateRefRange => "err:materefrange" | .errAuxNoZero => "err:auxnozero"
+  | .errAuxArrayLen => "err:auxarraylen" | .errAuxType => "err:auxtype" | .panicAuxType => "panic:auxtype"
+  | .panicConsume => "panic:consume" | .panicAuxSlice => "panic:auxslice" | .panicAuxArray => "panic:auxarray"
+  | .hangAuxArray => "hang:auxarray" | .fuel => "model:fuel"
+
+def cigarOfBytes : List Byte → List (BitVec 32) := readCigarOps
+
+def parseOptRef (s : String) : Option (Option Nat) := do
+  let i ← parseInt s
+  if i < 0 then some none else some (some i.toNat)
+
+def parseAuxList (s : String) : Option (List (List Byte)) :=
+  if s == "." then some []
+  else (s.splitOn ",").mapM (fun h => (parseHex h).map toBytes)
+
+def parseRecord (args : List String) : Option Record :=
+  match args with
+  | [name, ref, pos, mapq, cigar, flags, mref, mpos, tlen, seqLen, seq, qual, aux] => do
+    let name ← parseHex name
+    let ref ← parseOptRef ref
+    let pos ← parseInt pos
+    let mapq ← parseNat mapq
+    let cigar ← parseHex cigar
+    let flags ← parseNat flags
+    let mref ← parseOptRef mref
+    let mpos ← parseInt mpos
+    let tlen ← parseInt tlen
+    let seqLen ← parseNat seqLen
+    let seq ← parseHex seq
+    let qual ← if qual == "*" then some none else (parseHex qual).map (fun q => some (toBytes q))
+    let aux ← parseAuxList aux
+    some { name := toBytes name, ref := ref, pos := pos, mapq := BitVec.ofNat 8 mapq,
+           cigar := cigarOfBytes (toBytes cigar), flags := BitVec.ofNat 16 flags, mateRef := mref,
+           matePos := mpos, tempLen := tlen, seqLen := seqLen, seq := toBytes seq, qual := qual, aux := aux }
+  | _ => none
+
+def parseOmit (s : String) : Option Omit :=
+  if s == "0" then some .none else if s == "1" then some .aux else if s == "2" then some .all else none
+
+def showRead (res : List Record × Option Fault) : String :=
+  let all := res.1.flatMap ser
+  let e := match res.2 with | none => "eof" | some f => faultName f
+  s!"{res.1.length} {(fnv fnv0 all).toNat} {e}"
+
+def hexB (bs : List Byte) : String := hexOfNats (bs.map BitVec.toNat)
+
+def showElem (t : Hts.Spec.Bam.Elem) : String :=
+  String.ofList [Char.ofNat t.letter.toNat]
+
+def showAuxValue : Hts.Spec.Bam.AuxValue → String
+  | .char c => s!"A:{c.toNat}"
+  | .num t v => s!"{showElem t}:{v}"
+  | .str s => s!"Z:{hexB s}"
+  | .hex s => s!"H:{hexB s}"
+  | .arr t vs => s!"B:{showElem t}:{vs.length}:" ++ ",".intercalate (vs.map toString)
 
 def handle (cmd : String) (args : List String) : Option String :=
   match cmd, args with
+  | "c05.enc", args => do
+    let r ← parseRecord args
+    match encodeRecord r with
+    | .ok bs => some ("ok " ++ digest bs)
+    | .error f => some (faultName f)
+  | "c05.spec", bin :: args => do
+    let bin ← parseNat bin
+    let r ← parseRecord args
+    match view bin r with
+    | some a => some (digest (Hts.Spec.Bam.layout a))
+    | none => some "noview"
+  | "c05.rt", om :: nrefs :: args => do
+    -- write one record, read it back
+    let om ← parseOmit om
+    let nrefs ← parseNat nrefs
+    let r ← parseRecord args
+    match encodeRecord r with
+    | .ok bs => some (showRead (readAll om nrefs bs))
+    | .error f => some (faultName f)
+  | "c05.dec", [om, nrefs, stream] => do
+    let om ← parseOmit om
+    let nrefs ← parseNat nrefs
+    let s ← parseHex stream
+    some (showRead (readAll om nrefs (toBytes s)))
+  | "c05.view", [seqLen, seq, cigar, aux] => do
+    let seqLen ← parseNat seqLen
+    let seq ← parseHex seq
+    let cigar ← parseHex cigar
+    let aux ← parseAuxList aux
+    let letters := match expand seqLen (toBytes seq) with | some l => hexB l | none => "panic"
+    let cg := ",".intercalate ((cigarOfBytes (toBytes cigar)).map (fun c => s!"{cigarLen c}:{cigarType c}"))
+    let av := ";".intercalate (aux.map (fun a => match auxView a with
+      | some ((t0, t1), v) => s!"{t0.toNat}.{t1.toNat}:{showAuxValue v}"
+      | none => "noview"))
+    some s!"{letters} [{cg}] [{av}]"
+  | "c05.contract", [letters] => do
+    let l ← parseHex letters
+    some (hexB (contract (toBytes l)))
   | _, _ => none
 
 end Hts.Drv.C05
